@@ -244,6 +244,9 @@ func propC13(c *Ctx, r *Report) {
 	r.Clauses = append(r.Clauses, "classified uses are rewritten (E78): where a pass's classifier keeps a candidate eligible on some statement kind that touches it, the rewriting functions of the package have code for that statement kind")
 	c.runClassifyRewritten(r, "classify.rewritten", inPkgs("dxil/internal/passes", "ir"), nil)
 	r.floor("classify.rewritten", 1)
+	r.Clauses = append(r.Clauses, "loop-aware drivers (E79): a driver that applies a per-block transformation and recurses into loop bodies passes a constant argument in the StmtLoop arm that tells the transformation it is inside a loop")
+	c.runLoopAware(r, "promote.loopaware", inPkgs("dxil/internal/passes", "ir"))
+	r.floor("promote.loopaware", 1)
 	r.Clauses = append(r.Clauses, shallowWalkerClause)
 	c.runShallowWalker(r, "walker.shallow", inPkgs("ir", "dxil"), shallowWalkerExceptions)
 	r.floor("walker.shallow", 10)
